@@ -208,6 +208,12 @@ func TestVerifC22A_Saturate(t *testing.T) {
 			start := make(chan struct{})
 			tb := time.Now()
 			var wg sync.WaitGroup
+			burst := burst
+			if cd.name == "zstd" {
+				// every rejected zstd call allocates a fresh multi-MB encoder on the caller's side:
+				// the quick tier only goes some 600 calls beyond the queue capacity for this codec
+				burst = vfEnvInt("VERIF_C22_BURST_ZSTD", burst)
+			}
 			for g := 0; g < burst; g++ {
 				// the Append* form is the one CompressHandler uses: weight it; the plain-writer
 				// form allocates a fresh codec per call and is kept rare
